@@ -11,7 +11,8 @@ class Deadlock(Exception):
 
 
 class BatonScheduler:
-    def __init__(self, rng, mean_gap, max_preempt, trace_prefix, long_jump=0):
+    def __init__(self, rng, mean_gap, max_preempt, trace_prefix, long_jump=0, record_sites=False,
+                 targets=None, run_long=0):
         self.rng = rng
         self.mean_gap = mean_gap            # 0 / None: no pre-emption, only voluntary yields
         self.long_jump = long_jump          # >0: some countdowns are uniform in [1, long_jump] so that
@@ -28,6 +29,17 @@ class BatonScheduler:
         self.main_evt = threading.Event()
         self.error = None
         self.trace_log = []                 # (tid) sequence of baton holders, for the digest
+        # site-targeted pre-emption: a "site" is a source line of the library (code object, line
+        # number); targets[tid] = {(site, k)}: pre-empt thread tid at the k-th time it reaches
+        # that line.  Sampling uniformly over SOURCE LINES instead of over executed line events
+        # puts as many pre-emptions into a three-line window of a ladder that runs 30 000 line
+        # events as into straight-line code.
+        self.record_sites = record_sites
+        self.sites = {}                     # tid -> {site: hits}   (when recording)
+        self.targets = targets or {}
+        self.run_long = run_long            # after a targeted pre-emption the next thread runs this long
+        self.site_hits = 0
+        self._force_countdown = None
 
     # ---- called by the controlling (main) thread -------------------------------------
     def run(self, bodies, timeout=300):
@@ -75,6 +87,12 @@ class BatonScheduler:
             self.events[nxt].set()
 
     def _arm(self, tid):
+        fc = self._force_countdown
+        if fc:
+            # the thread that takes over after a targeted pre-emption runs undisturbed for a while
+            self._countdown = fc
+            self._force_countdown = None
+            return
         if self.mean_gap:
             if self.long_jump and self.rng.random() < 0.25:
                 self._countdown = self.rng.randrange(1, self.long_jump + 1)
@@ -87,9 +105,22 @@ class BatonScheduler:
         prefix = self.trace_prefix
         sched = self
 
+        record = self.record_sites
+        mysites = self.sites.setdefault(tid, {}) if (record or tid in self.targets) else None
+        mytargets = self.targets.get(tid)
+
         def local(frame, event, arg):
             if event == "line":
                 sched.line_events += 1
+                if mysites is not None:
+                    site = (frame.f_code.co_filename, frame.f_lineno)
+                    c = mysites.get(site, 0) + 1
+                    mysites[site] = c
+                    if mytargets is not None and (site, c) in mytargets:
+                        sched.site_hits += 1
+                        sched.preempts[tid] += 1
+                        sched.yield_(tid, long_for_next=True)
+                        return local
                 cd = sched._countdown
                 if cd is not None:
                     cd -= 1
@@ -130,13 +161,19 @@ class BatonScheduler:
             return None
         return r[self.rng.randrange(len(r))]
 
-    def yield_(self, me):
+    def yield_(self, me, long_for_next=False):
         """pre-emption point: hand the baton to a PRNG-chosen runnable thread (maybe me)"""
-        nxt = self._pick(me)
+        if long_for_next:
+            others = [t for t in self._runnable() if t != me]
+            nxt = others[self.rng.randrange(len(others))] if others else None
+        else:
+            nxt = self._pick(me)
         if nxt is None or nxt == me:
             return
         self.switches += 1
         self.trace_log.append(nxt)
+        if long_for_next and self.run_long:
+            self._force_countdown = self.run_long
         self.events[nxt].set()
         self.events[me].wait()
         self.events[me].clear()
